@@ -60,6 +60,7 @@ structure State where
   nextC : Nat := 0
   nextS : Nat := 0
   skey  : SId → Key := fun _ => ⟨0, false⟩   -- ghost: key a stream was created for
+  kept  : SId → Bool := fun _ => false        -- ghost: the stream's connection was stored in the map
   log   : List Ev := []                       -- newest first
 
 def init (progs : Tid → List Op) : State := { thr := fun t => { prog := progs t } }
@@ -118,7 +119,7 @@ def stepIns (s : State) (t : Tid) (sid : SId) : Option State :=
     let s2 := setObj s1 c { o with key := k, stream := some sid, closed := false, started := false, q := 0 }
     match s2.conns.get k with
     | some c2 => some (setThr s2 t { th with pc := .lock c2 })
-    | none => some (setThr { s2 with conns := s2.conns.set k c } t { th with pc := .lock c })
+    | none => some (setThr { s2 with conns := s2.conns.set k c, kept := upd s2.kept sid true } t { th with pc := .lock c })
   | _ => none
 
 /-- closeConnection up to the nested pool lock: ReassemblyComplete; closed = true; → Y4. -/
